@@ -18,6 +18,40 @@ fn main() {
     }
     panic::set_hook(Box::new(|_| {}));
     match args[0].as_str() {
+        "dump-ref" => {
+            // reference dump (run ONCE against the pinned reference release to freeze /verif/contracts/reference)
+            use a5::core::hilbert::{s_to_anchor, Orientation};
+            use a5::core::origin::{get_origins, quintant_to_segment, segment_to_quintant};
+            let b = |x: f64| format!("0x{:016x}", x.to_bits());
+            for o in get_origins() {
+                println!(
+                    "origin {} fq={} orient={:?} quat=[{},{},{},{}] inv=[{},{},{},{}] theta={} phi={} angle={}",
+                    o.id, o.first_quintant, o.orientation,
+                    b(o.quat[0]), b(o.quat[1]), b(o.quat[2]), b(o.quat[3]),
+                    b(o.inverse_quat[0]), b(o.inverse_quat[1]), b(o.inverse_quat[2]), b(o.inverse_quat[3]),
+                    b(o.axis.theta().get()), b(o.axis.phi().get()), b(o.angle.get())
+                );
+            }
+            for o in get_origins() {
+                for q in 0..5usize {
+                    let (seg, or1) = quintant_to_segment(q, o);
+                    let (q2, or2) = segment_to_quintant(seg, o);
+                    println!("relabel {} {} -> seg={} {:?} ; back q={} {:?}", o.id, q, seg, or1, q2, or2);
+                }
+            }
+            let ors = [Orientation::UV, Orientation::VU, Orientation::UW, Orientation::WU, Orientation::VW, Orientation::WV];
+            for n in 1..=3usize {
+                for (oi, o) in ors.iter().enumerate() {
+                    for s in 0..(1u64 << (2 * n)) {
+                        let a = s_to_anchor(s, n, *o);
+                        println!("anchor {} {} {} k={} f=[{},{}] x={} y={}", n, oi, s, a.k, a.flips[0], a.flips[1], b(a.offset.x()), b(a.offset.y()));
+                    }
+                }
+            }
+            for r in 0..=30 {
+                println!("area {} {} cells={}", r, b(a5::cell_area(r)), a5::get_num_cells(r));
+            }
+        }
         "dump-origins" => {
             for o in a5::core::origin::get_origins() {
                 println!("{} fq={} orient={:?}", o.id, o.first_quintant, o.orientation);
